@@ -61,7 +61,9 @@ def build_case(cid, rng, dynamic, force_async=False, no_send=False, probes=False
             L.append("#[::entrait::entrait(pub H%d)]" % i)
             L.append(body)
             helpers.append(("H%d" % i, "h%d" % i, fid))
-    opts = ["TrImpl" if rng.random() < 0.7 else "pub TrImpl", "delegate_by = %s" % ("ref" if dynamic else "DelegateTr")]
+    # dynamic selection through AsRef (`ref`) or through Borrow (the deprecated spelling)
+    via_borrow = dynamic and rng.random() < 0.3
+    opts = ["TrImpl" if rng.random() < 0.7 else "pub TrImpl", "delegate_by = %s" % (("Borrow" if via_borrow else "ref") if dynamic else "DelegateTr")]
     if rng.random() < 0.2:
         opts.append(rng.choice(["mockall = false", "unimock = false", "debug = false"]))
     if no_send:
@@ -109,7 +111,10 @@ def build_case(cid, rng, dynamic, force_async=False, no_send=False, probes=False
         sync = " + ::core::marker::Sync" if has_async else ""
         L.append("pub struct AppD { pub t: ::std::boxed::Box<dyn TrImpl<AppD> + ::core::marker::Send + ::core::marker::Sync> }")
         L += [x.replace("APP", "AppD") for x in leaf_impls]
-        L.append("impl ::core::convert::AsRef<dyn TrImpl<AppD>%s> for AppD { fn as_ref(&self) -> &(dyn TrImpl<AppD>%s + 'static) { &*self.t } }" % (sync, sync))
+        if via_borrow:
+            L.append("impl ::core::borrow::Borrow<dyn TrImpl<AppD>%s> for AppD { fn borrow(&self) -> &(dyn TrImpl<AppD>%s + 'static) { &*self.t } }" % (sync, sync))
+        else:
+            L.append("impl ::core::convert::AsRef<dyn TrImpl<AppD>%s> for AppD { fn as_ref(&self) -> &(dyn TrImpl<AppD>%s + 'static) { &*self.t } }" % (sync, sync))
         picks = rng.sample(targets, 2)
         for k, tgt in enumerate(picks):
             apps.append(("AppD", tgt, "AppD { t: ::std::boxed::Box::new(%s) }" % tgt))
